@@ -30,6 +30,8 @@ type symCtx struct {
 	parent  *symCtx
 	stack   map[*ssa.Function]bool
 	unknown *[]string
+	memo    map[ssa.Value][]string
+	active  map[ssa.Value]bool
 }
 
 func newSym(L *Loaded, assume map[string]bool) *symCtx {
@@ -167,11 +169,32 @@ func cross(prefix string, argSets [][]string) []string {
 }
 
 func (s *symCtx) eval(v ssa.Value) []string {
-	if s.depth > 40 {
+	if s.memo == nil {
+		s.memo = map[ssa.Value][]string{}
+		s.active = map[ssa.Value]bool{}
+	}
+	if m, ok := s.memo[v]; ok {
+		return m
+	}
+	if s.active[v] {
+		return []string{"cycle"}
+	}
+	if s.depth > 60 {
 		return []string{"deep"}
 	}
+	s.active[v] = true
 	s.depth++
-	defer func() { s.depth-- }()
+	res := s.eval1(v)
+	s.depth--
+	delete(s.active, v)
+	if len(res) > 32 {
+		res = res[:32]
+	}
+	s.memo[v] = res
+	return res
+}
+
+func (s *symCtx) eval1(v ssa.Value) []string {
 	switch x := v.(type) {
 	case *ssa.Const:
 		if str, ok := constString(x); ok {
